@@ -13,8 +13,10 @@ import (
 	"verifharness/hx"
 )
 
-// Association mode (C12). Parents are users 1,2 (pets 1,2 for the polymorphic relation); targets
-// carry integer indices 1..n, mapped per relation kind to rows of the target table.
+// Association mode (C12). Parents are users 1,2 (pets 1,2 for the polymorphic has-many relation,
+// kennels 1,2 for the polymorphic has-one relation); targets carry integer indices 1..n, mapped per
+// relation kind to rows of the target table. An operation with P = 0 is issued on the slice of
+// both parents (Delete only).
 
 type AOp struct {
 	Op string `json:"op"`
@@ -28,6 +30,7 @@ type aobs struct {
 	Count int64
 	Found []int64
 	Mem   []int64
+	Mems  []hx.M
 	Err   string
 }
 
@@ -46,7 +49,7 @@ func langIdx(code string) int64 {
 	return i
 }
 
-var modeTables = []string{"companies", "profiles", "toys", "pets", "langs", "users", "user_langs"}
+var modeTables = []string{"companies", "profiles", "toys", "pets", "langs", "users", "user_langs", "kennels"}
 
 func (m *modeEnv) seed(links [][2]int64) error {
 	sq := m.e.SQL
@@ -126,6 +129,27 @@ func (m *modeEnv) seed(links [][2]int64) error {
 		if err := ex("INSERT INTO toys(id,owner_id,owner_type,name) VALUES (-5,1,'users','foreign')"); err != nil {
 			return err
 		}
+	case "polyone":
+		if err := ex("INSERT INTO kennels(id,name) VALUES (1,'k1'),(2,'k2')"); err != nil {
+			return err
+		}
+		for t := int64(1); t <= 3; t++ {
+			p := parentOf(t)
+			otype := "kennels"
+			if p == nil {
+				// an unlinked toy belongs to an owner of another kind (toy 2) or to nobody (toy 3)
+				p, otype = int64(1), "users"
+				if t == 3 {
+					p, otype = int64(0), ""
+				}
+			}
+			if err := ex("INSERT INTO toys(id,owner_id,owner_type,name) VALUES (?,?,?,?)", t, p, otype, fmt.Sprint("toy", t)); err != nil {
+				return err
+			}
+		}
+		if err := ex("INSERT INTO toys(id,owner_id,owner_type,name) VALUES (-5,1,'users','foreign')"); err != nil {
+			return err
+		}
 	}
 	m.parents = map[int64]interface{}{}
 	return nil
@@ -141,6 +165,8 @@ func (m *modeEnv) rel() string {
 		return "Company"
 	case "many2many":
 		return "Langs"
+	case "polyone":
+		return "Toy"
 	}
 	return "Toys"
 }
@@ -161,6 +187,10 @@ func (m *modeEnv) parent(p int64) (interface{}, error) {
 	}
 	if m.kind == "poly" {
 		x := &fam.Pet{}
+		err = q.First(x, p).Error
+		v = x
+	} else if m.kind == "polyone" {
+		x := &fam.Kennel{}
 		err = q.First(x, p).Error
 		v = x
 	} else {
@@ -267,6 +297,11 @@ func (m *modeEnv) rawLinks() ([][2]int64, []int64, error) {
 		if err == nil {
 			err = q2("SELECT CAST(substr(code,2) AS INTEGER) FROM langs ORDER BY 1", false)
 		}
+	case "polyone":
+		err = q2("SELECT owner_id, id FROM toys WHERE owner_type = 'kennels' AND owner_id IS NOT NULL AND owner_id <> 0 ORDER BY 1,2", true)
+		if err == nil {
+			err = q2("SELECT id FROM toys WHERE id > 0 ORDER BY 1", false)
+		}
 	case "poly":
 		err = q2("SELECT owner_id, id FROM toys WHERE owner_type = 'pets' AND owner_id IS NOT NULL AND owner_id <> 0 ORDER BY 1,2", true)
 		if err == nil {
@@ -297,6 +332,10 @@ func (m *modeEnv) memOf(parent interface{}) []int64 {
 		}
 	case "poly":
 		for _, x := range parent.(*fam.Pet).Toys {
+			set[x.ID] = true
+		}
+	case "polyone":
+		if x := parent.(*fam.Kennel).Toy; x != nil && x.ID != 0 {
 			set[x.ID] = true
 		}
 	}
@@ -336,7 +375,7 @@ func (m *modeEnv) findIDs(parent interface{}) ([]int64, int64, error) {
 		for _, x := range xs {
 			ids = append(ids, langIdx(x.Code))
 		}
-	case "poly":
+	case "poly", "polyone":
 		var xs []fam.Toy
 		err = as.Find(&xs)
 		for _, x := range xs {
@@ -357,9 +396,35 @@ func (m *modeEnv) run(caseNo int, links [][2]int64, ops []AOp) (hx.M, error) {
 	newN := 0
 	opsJ := []hx.M{}
 	for _, a := range ops {
-		parent, err := m.parent(a.P)
+		qp := a.P
+		if qp == 0 {
+			qp = 1
+		}
+		parent, err := m.parent(qp)
 		if err != nil {
 			return nil, err
+		}
+		var model interface{} = parent
+		var other interface{}
+		if a.P == 0 {
+			// the second parent is loaded for this operation only (with its relation field in mode
+			// single); the order of the two in the slice depends on the targets named
+			saved := m.parents
+			m.parents = map[int64]interface{}{}
+			other, err = m.parent(2)
+			m.parents = saved
+			if err != nil {
+				return nil, err
+			}
+			sum := 0
+			for _, t := range a.Ts {
+				sum += t
+			}
+			if sum%2 == 0 {
+				model = m.slice(other, parent)
+			} else {
+				model = m.slice(parent, other)
+			}
 		}
 		var vals []interface{}
 		for _, t := range a.Ts {
@@ -373,7 +438,7 @@ func (m *modeEnv) run(caseNo int, links [][2]int64, ops []AOp) (hx.M, error) {
 			vals = append(vals, v)
 		}
 		// a fresh association handle per operation (it mutates its own statement)
-		as := m.e.DB.Model(parent).Association(m.rel())
+		as := m.e.DB.Model(model).Association(m.rel())
 		if m.unscoped {
 			as = as.Unscoped()
 		}
@@ -395,7 +460,7 @@ func (m *modeEnv) run(caseNo int, links [][2]int64, ops []AOp) (hx.M, error) {
 		}
 		obsParent := parent
 		if !m.single {
-			if obsParent, err = m.reload(a.P); err != nil {
+			if obsParent, err = m.reload(qp); err != nil {
 				return nil, err
 			}
 		}
@@ -405,12 +470,19 @@ func (m *modeEnv) run(caseNo int, links [][2]int64, ops []AOp) (hx.M, error) {
 		}
 		o.Found, o.Count = found, cnt
 		o.Mem = m.memOf(parent)
+		o.Mems = []hx.M{}
+		if m.single {
+			o.Mems = append(o.Mems, hx.M{"p": qp, "mem": o.Mem})
+			if other != nil {
+				o.Mems = append(o.Mems, hx.M{"p": 2, "mem": m.memOf(other)})
+			}
+		}
 		ts := a.Ts
 		if ts == nil {
 			ts = []int{}
 		}
 		opsJ = append(opsJ, hx.M{"op": a.Op, "p": a.P, "ts": ts, "obs": hx.M{"links": o.Links, "alive": o.Alive,
-			"count": o.Count, "found": o.Found, "mem": o.Mem, "err": o.Err}})
+			"count": o.Count, "found": o.Found, "mem": o.Mem, "mems": o.Mems, "err": o.Err}})
 	}
 	mode := "multi"
 	if m.single {
@@ -421,7 +493,22 @@ func (m *modeEnv) run(caseNo int, links [][2]int64, ops []AOp) (hx.M, error) {
 		"init": hx.M{"links": links, "alive": []int64{1, 2, 3}, "next": 4}, "ops": opsJ, "rops": string(rops)}, nil
 }
 
+// slice builds the slice-of-parents model value for an operation on all parents.
+func (m *modeEnv) slice(a, b interface{}) interface{} {
+	switch m.kind {
+	case "poly":
+		return &[]*fam.Pet{a.(*fam.Pet), b.(*fam.Pet)}
+	case "polyone":
+		return &[]*fam.Kennel{a.(*fam.Kennel), b.(*fam.Kennel)}
+	}
+	return &[]*fam.User{a.(*fam.User), b.(*fam.User)}
+}
+
 func (m *modeEnv) reload(p int64) (interface{}, error) {
+	if m.kind == "polyone" {
+		x := &fam.Kennel{}
+		return x, m.e.DB.First(x, p).Error
+	}
 	if m.kind == "poly" {
 		x := &fam.Pet{}
 		return x, m.e.DB.First(x, p).Error
@@ -440,11 +527,14 @@ func newModeEnv() (*Env, error) {
 	if err := db.AutoMigrate(fam.AllModels...); err != nil {
 		return nil, err
 	}
+	if err := db.AutoMigrate(&fam.Kennel{}); err != nil {
+		return nil, err
+	}
 	return &Env{DB: db, Rec: rec, SQL: sqldb}, nil
 }
 
 func initLinks(kind string) [][2]int64 {
-	if kind == "has_one" || kind == "belongs_to" {
+	if kind == "has_one" || kind == "belongs_to" || kind == "polyone" {
 		return [][2]int64{{1, 1}}
 	}
 	return [][2]int64{{1, 1}, {1, 2}}
@@ -485,7 +575,8 @@ func modeReplay(args []string) error {
 	m := &modeEnv{e: e, kind: *kind, unscoped: *unscoped, single: *single}
 	for i := *from; i < *to; i++ {
 		var c struct {
-			Ops []AOp `json:"ops"`
+			Ops   []AOp      `json:"ops"`
+			Links [][2]int64 `json:"links"`
 		}
 		if err := json.Unmarshal(lines[i], &c); err != nil {
 			return err
@@ -493,7 +584,10 @@ func modeReplay(args []string) error {
 		if m.single && !singleOK(c.Ops) {
 			continue
 		}
-		ev, err := m.run(i+1, initLinks(*kind), c.Ops)
+		if c.Links == nil {
+			c.Links = initLinks(*kind)
+		}
+		ev, err := m.run(i+1, c.Links, c.Ops)
 		if err != nil {
 			return fmt.Errorf("case %d: %v", i, err)
 		}
@@ -506,7 +600,7 @@ func modeReplay(args []string) error {
 // histories on one parent only.
 func singleOK(ops []AOp) bool {
 	for _, a := range ops {
-		if a.P != 1 {
+		if a.P != 1 && a.P != 0 {
 			return false
 		}
 	}
@@ -530,10 +624,10 @@ func modeRandom(args []string) error {
 		return err
 	}
 	defer w.Close()
-	kinds := []string{"has_many", "has_one", "belongs_to", "many2many", "poly"}
+	kinds := []string{"has_many", "has_one", "belongs_to", "many2many", "poly", "polyone"}
 	for i := 0; i < *n; i++ {
 		m := &modeEnv{e: e, kind: kinds[r.Intn(len(kinds))], unscoped: r.Intn(4) == 0, single: r.Intn(2) == 0}
-		functional := m.kind == "has_one" || m.kind == "belongs_to"
+		functional := m.kind == "has_one" || m.kind == "belongs_to" || m.kind == "polyone"
 		ln := 1 + r.Intn(8)
 		var ops []AOp
 		known := 3
@@ -543,6 +637,9 @@ func modeRandom(args []string) error {
 				a.P = 2
 			}
 			a.Op = []string{"append", "append", "replace", "delete", "clear"}[r.Intn(5)]
+			if a.Op == "delete" && r.Intn(3) == 0 {
+				a.P = 0 // Delete issued on the slice of both parents
+			}
 			nt := 1 + r.Intn(3)
 			if functional {
 				nt = 1
@@ -567,7 +664,11 @@ func modeRandom(args []string) error {
 			}
 			ops = append(ops, a)
 		}
-		ev, err := m.run(i+1, initLinks(m.kind), ops)
+		links := initLinks(m.kind)
+		if r.Intn(2) == 0 { // the second parent starts out with a target of its own
+			links = append(links, [2]int64{2, 3})
+		}
+		ev, err := m.run(i+1, links, ops)
 		if err != nil {
 			return fmt.Errorf("case %d: %v", i, err)
 		}
